@@ -4,7 +4,8 @@
  *   schedule : one letter per step: S force snapshot, T force temporal prediction, P periodic (cfg snapshotCmprStep)
  *   evolution: 0 smooth drift, 1 abrupt change half way, 2 every third step constant, 3 alternating between two fields,
  *              4 independent noise per step, 5 static field, 6 drift with a tiny-bound-hostile noise (raw fallback),
- *              7 a smooth field at step 0, then one fixed noisy field (step 1 incompressible, later steps predictable from it)
+ *              7 a smooth field at step 0, then one fixed noisy field (step 1 incompressible, later steps predictable from it),
+ *              8 values around 1000*scale with a slow drift (bounds of a few ulps: the re-check of the kernels fires)
  * The encoder runs in this process, the decoder in a forked child that shares nothing but the step streams
  * (two pipes), exactly as a writer and a reader process would.  Per step and variable the line reports the
  * compression type chosen, digests of the encoder's and the decoder's history buffers after the step, the number
@@ -34,6 +35,13 @@ static void* step_data(int ty, size_t n, int evo, int kind, uint64_t seed, doubl
 	if (evo == 7 && k >= 1) { sd += 1; kind = 1; }   /* a smooth field, then from step 1 on one fixed noisy field */
 	snprintf(spec, sizeof spec, "g:%d:%" PRIx64 ":%zx:%" PRIx64 ":%" PRIx64, (evo == 2 && k % 3 == 1) ? 6 : kind, sd, n, sb, ob);
 	size_t nn; void* d = make_data(spec, ty, &nn);
+	if (evo == 8) {    /* values around 1000*scale drifting slowly: with bounds of a few ulps of the values the kernels' re-check rejects codes */
+		for (size_t i = 0; i < n; i++) {
+			double x = ty == SZ_FLOAT ? ((float*)d)[i] : ((double*)d)[i];
+			x = 1000.0 * scale + 0.5 * x + 0.0004 * scale * k * sin(0.05 * (double)i + 0.3 * k);
+			if (ty == SZ_FLOAT) ((float*)d)[i] = (float)x; else ((double*)d)[i] = x;
+		}
+	}
 	if (evo == 0 || evo == 1 || evo == 6) {
 		for (size_t i = 0; i < n; i++) {
 			double x = ty == SZ_FLOAT ? ((float*)d)[i] : ((double*)d)[i];
